@@ -183,6 +183,39 @@ theorem stream_job_value (o : Oracle) (fuel : Nat) (p : Params) (i t n : Nat) (p
   rw [h]
   exact BV.Props.C02Part.part_of_stream_model i t n hi ht64 hnt hlen (Or.inl ⟨⟨_, rfl⟩, hw⟩) h []
 
+/-- a modelled job never spins: with C20's fuel (`call_terminates_callCap`: a function of the
+initial state and the piece length alone, NO hypothesis on the payload encoder) the FINISH call
+returns or hits one of its modelled panics, and then `compress_part`'s loop ends after that one
+call — the job is `Ok`, `Err` or `panic`, never `spin` -/
+theorem stream_job_never_spins (o : Oracle) (fuel : Nat) (p : Params) (i t n : Nat) (piece : Bytes)
+    (hi : i < t) (ht64 : t < U64) (hnt : n * t < U64) (hlen : piece.length = bnd t n (i + 1) - bnd t n i)
+    (hw : piece.length < two64)
+    (hfuel : callPot (callCap (ensureInitialized { St.new with params := jobParams p i }) piece.length)
+      (ensureInitialized { St.new with params := jobParams p i }) piece.length < fuel) :
+    streamJob o fuel p i t n piece ≠ .spin := by
+  have hf : IsFresh ({ St.new with params := jobParams p i } : St) := ⟨_, rfl⟩
+  obtain ⟨hI, _, _⟩ := inv_fresh hf
+  have hip : (ensureInitialized ({ St.new with params := jobParams p i } : St)).inputPos = 0 := by
+    simp [ensureInitialized, St.new]
+  have hw' : (ensureInitialized ({ St.new with params := jobParams p i } : St)).inputPos + piece.length < two64 := by
+    rw [hip, Nat.zero_add]; exact hw
+  have hop : (2 : Nat) ≤ 3 := by omega
+  have hl := BV.Props.C20.carry_bound_initial ({ St.new with params := jobParams p i } : St) rfl
+  have hterm := BV.Props.C20.call_terminates_callCap (o := o) (op := 2) (cap := maxCompressedSize piece.length)
+    (input := piece) hop hI hw' hl hfuel
+  rw [← compressStream_ensure] at hterm
+  cases h : compressStream o fuel { St.new with params := jobParams p i } 2 piece (maxCompressedSize piece.length) with
+  | fuel => exact absurd h hterm
+  | panic => unfold streamJob; rw [h]; intro e; cases e
+  | ok v =>
+    obtain ⟨s', io', r⟩ := v
+    rw [stream_job_value o fuel p i t n piece hi ht64 hnt hlen hw h]
+    split <;> simp
+
+example : streamJob BV.Props.C02Part.toyOracle 50000 {} 0 1 3 [1, 2, 3] ≠ .spin :=
+  stream_job_never_spins BV.Props.C02Part.toyOracle 50000 {} 0 1 3 [1, 2, 3] (by decide) (by decide) (by decide) (by decide)
+    (by decide) (by decide +kernel)
+
 /-- non-vacuity: the toy payload encoder of C02Part, job 0 of 1 over 3 bytes -/
 example : streamJob BV.Props.C02Part.toyOracle 5000 {} 0 1 3 [1, 2, 3] = .ok [251, 255, 255, 255, 255, 255] := by decide +kernel
 
